@@ -240,10 +240,11 @@ def run_rt_property(mod, tier, seed, replay=None):
         if broken and not out.violations:
             kind, why = broken[0]
             payload = {"what": why, "all_broken": broken}
-            if kind == "correspondence":
-                i = mm[0]
+            if kind == "correspondence" and mm:
                 payload.update({"case": sl, "impl": one_impl(sl),
                                 "model": vlib.run_one(runner, mod.model_line(sl) if hasattr(mod, "model_line") else sl)})
+            elif kind == "correspondence":
+                payload.update({"correspondence": "a tie established before the cases ran (translator output / probe of the pre hook) no longer checks"})
             else:
                 payload.update({"theorems": proof["theorems"], "coq_error": proof["reason"]})
             rp = vlib.write_replay(prop, seed, tier, kind, payload)
